@@ -16,7 +16,7 @@ SliceFlags == {[Base EXCEPT !.beep = a, !.power = b, !.follow = c, !.turbo = d, 
                  g \in BOOLEAN, h \in BOOLEAN, k \in BOOLEAN, x \in 0..2, w \in {0, 3, 12, 15}}
 Init == s \in SliceTemp \cup SliceFan \cup SliceHum \cup SliceFlags
 Next == UNCHANGED s
-RoundTrip == VendorDecode40(SetStateBody(s)) = s
+RoundTrip == VendorDecode40(SetStateBody(s)) = Requested(s)
 Shape == Vendor40Shape(SetStateBody(s)) /\ VendorNeutral(SetStateBody(s))
 DeviceAccepts == LET f == CommandFrame(TypeControl, SetStateBody(s), Mod(s.fan + s.hum, 256))
                  IN WellFormedCommand(f) /\ CommandKind(f) = "set_state" /\ FBody(f) = SetStateBody(s)
